@@ -1,6 +1,7 @@
 package main
 
 import (
+	"strconv"
 	"fmt"
 	"math"
 	"strings"
@@ -164,6 +165,9 @@ func execC20(seg []Ev) []Ev {
 					var n int
 					fmt.Sscan(toStr(in["payload"]), &n)
 					v.SetAsInteger(n)
+				} else if toStr(in["type"]) == "Double" {
+					f, _ := strconv.ParseFloat(toStr(in["payload"]), 64)
+					v.SetAsDouble(f)
 				} else {
 					v.SetAsString(toStr(in["payload"]))
 				}
@@ -471,6 +475,9 @@ func genC20(g *Gen) {
 	for _, how := range []string{"Clone", "Assign", "SetAsObject", "NewVariant"} {
 		ops = append(ops, Ev{"op": "copy", "w": 2, "v": 1, "how": how}, Ev{"op": "copy", "w": 1, "v": 2, "how": how})
 	}
+	// a variant assigned to / set from itself; a floating-point NaN (which equals nothing, itself included)
+	ops = append(ops, Ev{"op": "copy", "w": 1, "v": 1, "how": "Assign"}, Ev{"op": "copy", "w": 1, "v": 1, "how": "SetAsObject"}, Ev{"op": "copy", "w": 2, "v": 2, "how": "Clone"},
+		Ev{"op": "setscalar", "v": 1, "type": "Double", "payload": "NaN"}, Ev{"op": "setscalar", "v": 2, "type": "Double", "payload": "1.5"})
 	ops = append(ops, Ev{"op": "listset", "list": "L1", "elems": []any{"e1", "e2"}}, Ev{"op": "listput", "list": "L1", "i": 0, "e": "e5"},
 		Ev{"op": "listcut", "list": "L1", "n": 0}, Ev{"op": "listappend", "list": "L1", "e": "e4"}, Ev{"op": "listset", "list": "L1", "elems": []any{"nilptr", "e1"}},
 		Ev{"op": "mutelem", "v": 1, "i": 2}, Ev{"op": "mutelem", "v": 2, "i": 2})
@@ -544,7 +551,11 @@ func genC20(g *Gen) {
 			case 10:
 				seg = append(seg, Ev{"op": "setobject", "v": v, "kind": []string{"map", "struct", "ptr"}[r.Intn(3)], "inst": 1 + r.Intn(3)})
 			case 0:
-				seg = append(seg, Ev{"op": "setscalar", "v": v, "type": []string{"Integer", "String"}[r.Intn(2)], "payload": fmt.Sprint(r.Intn(3))})
+				if r.Intn(5) == 0 {
+					seg = append(seg, Ev{"op": "setscalar", "v": v, "type": "Double", "payload": []string{"NaN", "1.5", "-0"}[r.Intn(3)]})
+				} else {
+					seg = append(seg, Ev{"op": "setscalar", "v": v, "type": []string{"Integer", "String"}[r.Intn(2)], "payload": fmt.Sprint(r.Intn(3))})
+				}
 			case 1, 2:
 				seg = append(seg, Ev{"op": "fromlist", "v": v, "list": L, "how": fhows[r.Intn(4)]})
 			case 3:
@@ -552,9 +563,7 @@ func genC20(g *Gen) {
 			case 4:
 				seg = append(seg, Ev{"op": "setlength", "v": v, "n": r.Intn(6)})
 			case 5, 6:
-				if v != w {
-					seg = append(seg, Ev{"op": "copy", "w": w, "v": v, "how": hows[r.Intn(4)]})
-				}
+				seg = append(seg, Ev{"op": "copy", "w": w, "v": v, "how": hows[r.Intn(4)]})
 			case 7:
 				var e []any
 				for q := r.Intn(4); q > 0; q-- {
